@@ -16,7 +16,7 @@ package server
 //   pP pX pS pH: the follower is stopped (SIGSTOP), the leader executes P / X /
 //       S / H, 0.6 s pass, the follower continues  (= replication lag longer
 //       than the remaining time to live)
-//   K   the replication connection is killed
+//   K   the replication connection is killed;  R  the follower restarts
 // Oracle at the end (follower reports caught_up, leader quiescent, 2.5 s more
 // have passed): same objects, fields, deadline flags, channels on both.
 
@@ -30,10 +30,10 @@ import (
 
 func init() { checks["c06ttl"] = checkC06TTL }
 
-var c06TTLEvents = []string{"T", "P", "X", "S", "C", "H", "A", "pP", "pX", "pS", "pH", "K"}
+var c06TTLEvents = []string{"T", "P", "X", "S", "C", "H", "A", "pP", "pX", "pS", "pH", "K", "R"}
 
 func checkC06TTL(job *Job, res *Result) {
-	res.Rule = "FAULT: leader and follower with their expiry sweepers on the virtual clock; ALL event sequences of length <= D over {SET EX 0.5, PERSIST, EXPIRE 100, SET without deadline, SETCHAN EX 0.5, SETCHAN without deadline, 0.6 s pass, the same leader commands while the follower is stopped for 0.6 s, connection kill}; at the end the follower reports caught_up and 2.5 s more pass; distinct = distinct (event sequence, final leader dump)"
+	res.Rule = "FAULT: leader and follower with their expiry sweepers on the virtual clock; ALL event sequences of length <= D over {SET EX 0.5, PERSIST, EXPIRE 100, SET without deadline, SETCHAN EX 0.5, SETCHAN without deadline, 0.6 s pass, the same leader commands while the follower is stopped for 0.6 s, connection kill, follower restart}; at the end the follower reports caught_up and 2.5 s more pass; distinct = distinct (event sequence, final leader dump)"
 	res.Assumptions = append(res.Assumptions,
 		"a stopped follower (SIGSTOP for 0.6 s) stands for a replication lag longer than the remaining time to live",
 		"deadline values are not compared (they are re-based when a command is replayed), only which objects and channels exist and whether they carry a deadline")
@@ -129,6 +129,11 @@ func checkC06TTL(job *Job, res *Result) {
 				switch {
 				case ev == "A":
 					vsched.Sleep(int64(600 * stdtime.Millisecond))
+				case ev == "R": // the follower process stops and starts again on its own log
+					fc.Close()
+					F.StopProcess()
+					F = x.Start("F", x.dir+"/F", 9002, nil)
+					fc = x.Dial(F.Addr)
 				case ev == "K":
 					for _, c := range vnet.All {
 						if c.Owner == "F" && !c.Closed() {
